@@ -161,7 +161,10 @@ func (a *FuncAction) Exec(ctx context.Context, bs Bindings, props StepProps) (*E
 		}
 	}
 
-	exe, err := a.F(ctx, bs, props)
+	// The wrapped function gets its own copy: Whatever it does to
+	// the (top level of the) bindings that it is given stays with
+	// it unless it returns them.
+	exe, err := a.F(ctx, bs.Copy(), props)
 
 	// Restore the permanent bindings into the bindings (if any)
 	// that the execution returned.  A failed execution can be nil,
